@@ -164,6 +164,8 @@ enum Loc {
     Match(String),
     Return,
     IfCond,
+    /// right-hand side of an assignment to this place (`x op= e` yields `x op e`)
+    Assign(String),
 }
 struct Finder {
     loc: Loc,
@@ -204,6 +206,35 @@ impl<'a> Visit<'a> for Finder {
         }
         visit::visit_expr_if(self, i);
     }
+    fn visit_expr_assign(&mut self, a: &'a syn::ExprAssign) {
+        if let Loc::Assign(s) = &self.loc {
+            if squash(&a.left.to_token_stream().to_string()) == squash(s) {
+                self.hits.push((*a.right).clone());
+            }
+        }
+        visit::visit_expr_assign(self, a);
+    }
+    fn visit_expr_binary(&mut self, b: &'a syn::ExprBinary) {
+        if let Loc::Assign(s) = &self.loc {
+            let base = match &b.op {
+                syn::BinOp::AddAssign(_) => Some(syn::BinOp::Add(Default::default())),
+                syn::BinOp::SubAssign(_) => Some(syn::BinOp::Sub(Default::default())),
+                syn::BinOp::MulAssign(_) => Some(syn::BinOp::Mul(Default::default())),
+                _ => None,
+            };
+            if let Some(op) = base {
+                if squash(&b.left.to_token_stream().to_string()) == squash(s) {
+                    self.hits.push(syn::Expr::Binary(syn::ExprBinary {
+                        attrs: vec![],
+                        left: b.left.clone(),
+                        op,
+                        right: b.right.clone(),
+                    }));
+                }
+            }
+        }
+        visit::visit_expr_binary(self, b);
+    }
     fn visit_expr_return(&mut self, r: &'a syn::ExprReturn) {
         if let (Loc::Return, Some(e)) = (&self.loc, &r.expr) {
             self.hits.push((**e).clone());
@@ -214,7 +245,8 @@ impl<'a> Visit<'a> for Finder {
 
 /// Resolve a structural locator inside a function body:
 /// `{"let": name}` / `{"match": scrutinee text}` / `{"return": true}` / `{"if": true}` (the CONDITION of an
-/// `if`, `if let` excluded) (with optional `"nth"`, 0-based, in source order, searching nested blocks, loops and
+/// `if`, `if let` excluded) / `{"assign": place text}` (the value assigned to that place; `x += e` gives `x + e`)
+/// (with optional `"nth"`, 0-based, in source order, searching nested blocks, loops and
 /// closures), `{"tail_of": true}`; optional `"arg_of": "Ok"` then steps into a one-argument call; optional
 /// `"peel": ["cast", "try", "paren", …]` then strips, in that order, an outer `e as T`, `e?`, `(e)`.
 fn locate(body: &syn::Block, loc: &Value) -> R<syn::Expr> {
@@ -233,6 +265,8 @@ fn locate(body: &syn::Block, loc: &Value) -> R<syn::Expr> {
             (Loc::Return, "return".to_string())
         } else if loc.get("if").is_some() {
             (Loc::IfCond, "if".to_string())
+        } else if let Some(s) = loc.get("assign").and_then(|v| v.as_str()) {
+            (Loc::Assign(s.to_string()), format!("assignment to {}", s))
         } else {
             return Err(format!("unknown locator {}", loc));
         };
@@ -270,6 +304,35 @@ fn str_of<'a>(v: &'a Value, key: &str) -> Option<&'a str> {
     v.get(key).and_then(|x| x.as_str())
 }
 
+fn str_list(v: &Value, key: &str) -> Vec<String> {
+    v.get(key)
+        .and_then(|x| x.as_array())
+        .map(|a| a.iter().filter_map(|x| x.as_str().map(String::from)).collect())
+        .unwrap_or_default()
+}
+
+fn extern_variants(item: &Value) -> R<Vec<syn::Variant>> {
+    let mut out = vec![];
+    for t in str_list(item, "variants") {
+        out.push(syn::parse_str::<syn::Variant>(&t).map_err(|e| format!("extern_enum variant `{}`: {}", t, e))?);
+    }
+    if out.is_empty() {
+        return Err("extern_enum without `variants`".into());
+    }
+    Ok(out)
+}
+
+fn variant_info(vs: &[&syn::Variant]) -> (Vec<(String, Vec<syn::Type>)>, BTreeMap<String, Vec<String>>) {
+    let variants = vs.iter().map(|v| (v.ident.to_string(), v.fields.iter().map(|f| f.ty.clone()).collect())).collect();
+    let mut names = BTreeMap::new();
+    for v in vs {
+        if let syn::Fields::Named(n) = &v.fields {
+            names.insert(v.ident.to_string(), n.named.iter().filter_map(|f| f.ident.as_ref().map(|i| i.to_string())).collect());
+        }
+    }
+    (variants, names)
+}
+
 /// Merge the `opaque` / `methods` / `casts` keys of `v` into `cfg`.
 fn read_cfg(cfg: &mut ItemCfg, v: &Value) {
     match v.get("opaque") {
@@ -296,6 +359,30 @@ fn read_cfg(cfg: &mut ItemCfg, v: &Value) {
                 },
             };
             cfg.methods.insert(k.clone(), mc);
+        }
+    }
+    if let Some(Value::Object(m)) = v.get("ops") {
+        for (k, x) in m {
+            if let Some(s) = x.as_str() {
+                cfg.ops.insert(k.clone(), s.to_string());
+            }
+        }
+    }
+    if let Some(Value::Object(m)) = v.get("calls") {
+        for (k, x) in m {
+            cfg.calls.insert(
+                k.clone(),
+                MethodCfg {
+                    lean: str_of(x, "lean").unwrap_or_default().to_string(),
+                    ret: str_of(x, "ret").map(String::from),
+                    pre: None,
+                },
+            );
+        }
+    }
+    if let Some(Value::Array(a)) = v.get("erase_calls") {
+        for x in a.iter().filter_map(|x| x.as_str()) {
+            cfg.erase_calls.insert(x.to_string());
         }
     }
     if let Some(Value::Object(m)) = v.get("casts") {
@@ -349,7 +436,15 @@ fn translate_item(src: &mut Sources, reg: &mut Registry, module: &str, mcfg: &It
                 })
                 .ok_or(format!("enum `{}` not found", name))?;
             set_meta(meta, e.span(), &e.to_token_stream().to_string());
-            trans::translate_enum(&mut cx, &format!("{} enum `{}`", where_(meta.start, meta.end), name), e)?
+            let only = str_list(item, "variants");
+            trans::translate_enum(&mut cx, &format!("{} enum `{}`", where_(meta.start, meta.end), name), e, &only)?
+        }
+        "extern_enum" => {
+            let vs = extern_variants(item)?;
+            let text = str_list(item, "variants").join(" | ");
+            meta.hash = fnv1a(&text);
+            let doc = format!("external enum `{}` as declared in items.json (`{}`; only the listed variants)", name, file_rel);
+            trans::translate_extern_enum(&mut cx, &name, &doc, &vs)?
         }
         "struct" => {
             let s = all_items(&file.items)
@@ -412,6 +507,36 @@ fn translate_item(src: &mut Sources, reg: &mut Registry, module: &str, mcfg: &It
             new_fn = Some((name.clone(), out.info));
             (out.lean, out.defs)
         }
+        "arm" | "arms" => {
+            let fn_name = str_of(item, "fn").ok_or("arm without `fn`")?;
+            let (_, body, _, _) = find_fn(file, imp.as_deref(), fn_name)?;
+            let loc = item.get("locate").ok_or("arm without `locate`")?;
+            let syn::Expr::Match(m) = locate(body, loc)? else {
+                return Err("arm: the locator does not select a `match`".into());
+            };
+            if kind == "arms" {
+                set_meta(meta, m.span(), &m.to_token_stream().to_string());
+                let doc = format!("{} arm patterns, in order, of `match {}` inside fn `{}`", where_(meta.start, meta.end),
+                    m.expr.to_token_stream(), fn_name);
+                trans::translate_arm_list(&name, &doc, &m)
+            } else {
+                let want = squash(str_of(item, "arm").ok_or("arm without `arm` (the pattern text)")?);
+                let hits: Vec<&syn::Arm> = m.arms.iter().filter(|a| squash(&a.pat.to_token_stream().to_string()) == want).collect();
+                if hits.len() != 1 {
+                    return Err(format!("arm `{}` no longer resolves ({} candidates)", want, hits.len()));
+                }
+                let arm = hits[0];
+                set_meta(meta, arm.span(), &arm.to_token_stream().to_string());
+                let sty: syn::Type = syn::parse_str(str_of(item, "scrutinee").ok_or("arm without `scrutinee` (its Rust type)")?)
+                    .map_err(|e| format!("arm `scrutinee`: {}", e))?;
+                let state = item.get("state").and_then(|v| v.as_u64()).map(|v| v as usize);
+                let doc = format!("{} arm `{}` of `match {}` inside fn `{}`", where_(meta.start, meta.end),
+                    arm.pat.to_token_stream(), m.expr.to_token_stream(), fn_name);
+                let out = trans::translate_arm(&mut cx, &name, &doc, arm, &sty, state)?;
+                new_fn = Some((name.clone(), out.info));
+                (out.lean, out.defs)
+            }
+        }
         k => return Err(format!("unknown item kind `{}`", k)),
     };
     let deps = cx.deps.iter().cloned().collect();
@@ -429,16 +554,28 @@ fn prepass(src: &mut Sources, reg: &mut Registry, modules: &[Value]) {
             let (Some(kind), Some(file), Some(name)) = (str_of(&item, "kind"), str_of(&item, "file"), str_of(&item, "name")) else {
                 continue;
             };
+            if kind == "extern_enum" {
+                if let Ok(vs) = extern_variants(&item) {
+                    let (variants, field_names) = variant_info(&vs.iter().collect::<Vec<_>>());
+                    reg.enums.insert(name.to_string(), trans::EnumInfo { module: module.clone(), variants, field_names });
+                    for a in str_list(&item, "aliases") {
+                        reg.aliases.insert(a, name.to_string());
+                    }
+                }
+                continue;
+            }
             let Ok(f) = src.get(file) else { continue };
             for it in all_items(&f.items) {
                 match (kind, it) {
                     ("enum", syn::Item::Enum(e)) if e.ident == name => {
-                        let variants = e
-                            .variants
-                            .iter()
-                            .map(|v| (v.ident.to_string(), v.fields.iter().map(|f| f.ty.clone()).collect()))
-                            .collect();
-                        reg.enums.insert(name.to_string(), trans::EnumInfo { module: module.clone(), variants });
+                        let only = str_list(&item, "variants");
+                        let vs: Vec<&syn::Variant> =
+                            e.variants.iter().filter(|v| only.is_empty() || only.iter().any(|o| v.ident == o)).collect();
+                        let (variants, field_names) = variant_info(&vs);
+                        reg.enums.insert(name.to_string(), trans::EnumInfo { module: module.clone(), variants, field_names });
+                        for a in str_list(&item, "aliases") {
+                            reg.aliases.insert(a, name.to_string());
+                        }
                     }
                     ("struct", syn::Item::Struct(s)) if s.ident == name => {
                         let fields = s
